@@ -53,6 +53,7 @@ def run(rep, tier, seed, pa):
     cases = ac.random_cases(rng, 90 if tier == "quick" else 900, tier, unlabelled_share=0.15, kmax={2: 5, 3: 4, 4: 3, 5: 3})
     lines, metas = [], []
     conts = [(gen.build_continuum(pa, case["units"]), gen.make_dissim(pa, case["spec"])) for case in cases]
+    conts_by_case = {id(case): c[0] for case, c in zip(cases, conts)}
     ws = [rng.choice([1, 2, 3]) for _ in cases]
 
     def fwork(k):
@@ -92,6 +93,21 @@ def run(rep, tier, seed, pa):
                 continue
             lines.append([400] + I.wire() + w_list([ua.n_tuple for ua in al.unitary_alignments], lambda nt: slots_wire(I, nt, ranks)))
             metas.append((case, I, kind, al, attached, dissim))
+    # second dissimilarity per case (positional with another delta_empty: defined on every continuum): model sums for every alignment under it
+    lines2, keys2 = [], []
+    for (case, I, kind, al, attached, dissim) in metas:
+        if kind == "soft" or "second_dissim" in case and id(al) in case["second_out"]:
+            continue
+        if "second_dissim" not in case:
+            case["second_dissim"] = gen.make_dissim(pa, ("pos", 2.0 if case["spec"][0] != "pos" or case["spec"][1] != 2.0 else 0.5))
+            case["second_I"] = Inst(conts_by_case[id(case)], case["second_dissim"])
+            case["second_out"] = {}
+            case["second_line"] = True
+        ranks2 = {a: i for i, a in enumerate(sorted(conts_by_case[id(case)].annotators))}
+        lines2.append([400] + case["second_I"].wire() + w_list([ua.n_tuple for ua in al.unitary_alignments], lambda nt: slots_wire(case["second_I"], nt, ranks2)))
+        keys2.append((case, id(al)))
+    for (case, k_), out_ in zip(keys2, run_model(lines2)):
+        case["second_out"][k_] = out_
     outs = run_model(lines)
     for (case, I, kind, al, attached, dissim), out in zip(metas, outs):
         total = out[0]
@@ -146,6 +162,31 @@ def run(rep, tier, seed, pa):
                     bad.append(("lazy-disorder", "disorder computed from the carried unitary disorders %r, definition %r" % (float(v), float(al_exact))))
             except Exception as e:
                 bad.append(("lazy-disorder-raises", "Alignment(...).disorder raised %r" % (e,)))
+        # the same alignment object recomputed with ANOTHER dissimilarity (it already carries a total and unitary disorders from the first one):
+        # the returned total, the carried total and the carried unitary disorders must all be those of the new dissimilarity
+        if kind != "soft" and not bad and case.get("second_line") is not None:
+            d2, out2 = case["second_dissim"], case["second_out"].get(id(al))
+            if out2 is not None:
+                k2, pos2, sums2 = out2[1], 2, []
+                for _ in range(k2):
+                    ln2 = out2[pos2]
+                    sums2.append(out2[pos2 + 1 + ln2])
+                    pos2 += 2 + ln2
+                I2 = case["second_I"]
+                ua2 = [Fraction(s_, I2.scale) / I2.c2n for s_ in sums2]
+                al2 = sum(ua2, Fraction(0)) / avg
+                try:
+                    v2 = al.compute_disorder(d2)
+                    obs["recomputed_with_second_dissimilarity"] = float(v2)
+                    if not close(v2, al2, TAU2):
+                        bad.append(("recompute-other-dissimilarity", "compute_disorder(second dissimilarity) returned %r, definition %r" % (float(v2), float(al2))))
+                    elif not close(al.disorder, al2, TAU2):
+                        bad.append(("recompute-other-dissimilarity", "disorder property %r after recomputation with a second dissimilarity, definition %r" % (float(al.disorder), float(al2))))
+                    elif any(not close(u.disorder, e2, TAU2) for u, e2 in zip(al.unitary_alignments, ua2)):
+                        bad.append(("recompute-other-dissimilarity", "carried unitary disorders are not those of the second dissimilarity"))
+                    al.compute_disorder(dissim)      # back to the first one for the checks below
+                except Exception as e:
+                    bad.append(("compute_disorder-raises", "compute_disorder(second dissimilarity) raised %r" % (e,)))
         # UnitaryAlignment.compute_disorder on each tuple
         for ua, e, r in zip(al.unitary_alignments, ua_exact, reals):
             try:
